@@ -30,6 +30,9 @@ EXPLANATION = ('IFACE over OneHotEncoding; INV inverse pieces for melody, chords
 TRUSTED = ['integer // and * are exact', 'pitch-class name oracle', 'constant folding']
 NOT_DECIDED = ['exhaustive index enumeration (that is execution)', 'monotonicity of velocity binning as a value fact']
 ASSUMPTIONS = ['note-density bin boundaries are strictly increasing and positive (constructor argument)']
+# rules whose verdict does not depend on how the statements are arranged (semantic analyses); all other rules are shape rules:
+# when one of those fails in a function that was restructured relative to reference/signatures.json the verdict is "cannot decide"
+ROBUST = ('TAB',)
 FLOORS = {'IFACE': 24, 'INV': 12, 'WIDTH': 6, 'TAB': 20, 'VEL': 3}
 
 NAMES = {'C': 0, 'D': 2, 'E': 4, 'F': 5, 'G': 7, 'A': 9, 'B': 11}
